@@ -429,7 +429,7 @@ def parse_format(snippet):
 def r12_5(ctx):
     out = []
     # the naming function: pure fn(usize) -> String
-    nk = [k for k, b in ctx.B.items() if b['def_kind'] == 'Fn' and b['arg_count'] == 1 and ctx.T[b['locals'][1]['ty']]['s'] == 'usize'
+    nk = [k for k, b in ctx.B.items() if b['def_kind'] in ('Fn', 'AssocFn') and b['arg_count'] == 1 and ctx.T[b['locals'][1]['ty']]['s'] == 'usize'
           and ctx.T[b['locals'][0]['ty']]['s'] == 'std::string::String']
     if len(nk) != 1:
         return [inst('R12.5', 'name format', False, 'shard-naming function fn(usize) -> String not found (%s)' % nk)]
@@ -444,30 +444,56 @@ def r12_5(ctx):
     okh = len(hexes) == 1 and q.E[hexes[0]][2]['path'].endswith('new_lower_hex') and is_param(q.E[hexes[0]][2]['args'][0], 1)
     out.append(inst('R12.5', 'rendered argument', okh, 'the one formatted argument is the shard id, rendered LowerHex' if okh else
                     'the formatted argument is not the shard id in lower hex (%s)' % [q.E[e][2]['path'] for e in hexes]))
-    # shard paths: base dir + that name
-    name_path = 'std::fmt::format'
+    # shard paths: in the public operations (shard constructors looked through), every directory a shard object carries
+    # is <the cache's own base-directory field> + <naming function>(id), with id the shard object's own id
+    name_app = 'local::' + ctx.B[nk[0]]['path']
+    tr = ctx.traits[ctx.role('cachedir_trait')]
+    impl_tys = {imp['self_ty_s'] for imp in tr['impls']}
+    ctors = {k for k in ctx.pure if ctx.T[ctx.B[k]['locals'][0]['ty']]['s'] in impl_tys}
     n_ok = 0
     bad = []
-    for k, b in ctx.B.items():
-        if ctx.T[b['locals'][0]['ty']].get('local') and nk[0] in ctx.cg.local_edges.get(k, ()):
-            q2 = ctx.explore(k, opaque='none', precise=True, tag='c12')
-            for t in q2.terminals(lambda ev: ev['k'] == 'ret'):
-                v = q2.g.term[t]['val']
-                if VAL[v][0] != 'agg':
+
+    def self_fld(d):
+        t = VAL[d]
+        while t[0] == 'sym' and t[1] == 'app' and t[2].rsplit('::', 1)[-1] in ('clone', 'to_path_buf', 'to_owned', 'into_owned', 'as_ref', 'deref', 'as_path') and len(t) > 4:
+            d = t[4]
+            t = VAL[d]
+        return t[0] == 'sym' and t[1] == 'fld' and any(is_param(x, 1) for x in values.subs(d))
+    for p in ('sharded::Cache::get', 'sharded::Cache::touch', 'sharded::Cache::set', 'sharded::Cache::put', 'sharded::Cache::temp_dir'):
+        q2 = ctx.explore(ctx.key_of(p), opaque=set(ctx.pure) - ctors, tag='c12ctor')
+        seen = set()
+        for e in q2.edges(lambda ev: ev['k'] == 'ext' and prims.classify_event(ev)[0] in prims.FS_CLASSES):
+            for a_ in q2.E[e][2]['args']:
+                if a_ is None:
                     continue
-                paths = [f for f in VAL[v][3:] if f is not None and VAL[f][0] == 'sym' and VAL[f][1] == 'app' and VAL[f][2] == 'path.push']
-                for pth in paths:
-                    d, leaf = VAL[pth][4], VAL[pth][5]
-                    idarg = [f for f in VAL[v][3:] if f is not None and is_param(f)]
-                    leaf_ok = any(VAL[s][0] == 'sym' and VAL[s][1] == 'app' and VAL[s][2].endswith('new_lower_hex') and VAL[s][4] in idarg for s in values.subs(leaf))
-                    dt = VAL[d]
-                    dir_ok = (dt[0] == 'sym' and dt[1] == 'fld') or (dt[0] == 'sym' and dt[1] == 'app' and dt[2] == 'path.pop')
-                    if leaf_ok and dir_ok:
+                for s_ in values.subs(a_):
+                    ts = VAL[s_]
+                    if s_ in seen or not (ts[0] == 'sym' and ts[1] == 'app' and ts[2] == 'path.push' and len(ts) > 5):
+                        continue
+                    d, leaf = ts[4], ts[5]
+                    lf = leaf
+                    while VAL[lf][0] == 'sym' and VAL[lf][1] == 'app' and VAL[lf][2] != name_app and len(VAL[lf]) == 5 and \
+                            VAL[lf][2].rsplit('::', 1)[-1] in ('as_ref', 'deref', 'as_str', 'as_path', 'borrow', 'as_os_str', 'new', 'from', 'into'):
+                        lf = VAL[lf][4]
+                    names = [lf] if (VAL[lf][0] == 'sym' and VAL[lf][1] == 'app' and VAL[lf][2] == name_app) else []
+                    if not names:
+                        continue
+                    seen.add(s_)
+                    if self_fld(d) and len(names) == 1:
                         n_ok += 1
                     else:
-                        bad.append(b['path'])
-    out.append(inst('R12.5', 'shard path', n_ok >= 2 and not bad, 'shard directory = base (or sibling) directory + formatted id, id = the shard\'s own id (%d constructors)' % n_ok
-                    if n_ok >= 2 and not bad else 'a shard constructor does not build <base>/<formatted id>: %s' % bad))
+                        bad.append('%s: %s' % (p, show(s_, 3)[:120]))
+                # a shard object's recorded id is the id its directory was named after
+                for s_ in values.subs(a_):
+                    ts = VAL[s_]
+                    if ts[0] == 'agg' and ts[1] in impl_tys and s_ not in seen:
+                        seen.add(s_)
+                        ids = [f for f in ts[3:] if f is not None and ctx is not None and VAL[f][0] == 'sym' and VAL[f][1] == 'app' and not VAL[f][2].startswith('path.')]
+                        named = [VAL[x][4] for f in ts[3:] if f is not None for x in values.subs(f) if VAL[x][0] == 'sym' and VAL[x][1] == 'app' and VAL[x][2] == name_app and len(VAL[x]) > 4]
+                        if named and ids and not any(n in ids for n in named):
+                            bad.append('%s: shard object %s carries an id different from the one its directory is named after' % (p, show(s_, 2)[:100]))
+    out.append(inst('R12.5', 'shard path', n_ok >= 2 and not bad, 'every shard directory = the cache\'s base-directory field + name(id), id = the shard object\'s own id (%d path shapes)' % n_ok
+                    if n_ok >= 2 and not bad else 'a shard directory is not <base dir>/<formatted id>: %s' % (bad[:3] or 'no shard path found')))
     return out
 
 
